@@ -10,6 +10,7 @@
     correspondence against planted datasets. *)
 From Spowtd Require Import Model.FitOffsets Model.Views Proofs.QSum Proofs.FitOffsetsSpec Proofs.FindOffsetsSpec
   Proofs.ViewsSpec Proofs.PlantedViewSpec.
+From Spowtd Require Import Model.Components Proofs.ComponentsSpec Proofs.PlantedMainBodySpec.
 
 Theorem C06_planted_curve_recovered : forall hm sids offs (T : Z -> Q) (cs : nat -> Q),
   find_offsets hm = Ok (sids, offs) ->
@@ -108,9 +109,44 @@ Theorem C06_solver_to_view_from_reference :
 Proof. exact planted_written_view_from_reference. Qed.
 Print Assumptions C06_solver_to_view_from_reference.
 
+(** ... and for the path the commands take (get_series_time_offsets: main body of
+    the overlap graph first, then find_offsets): no connectivity hypothesis
+    remains; data planted on the whole head mapping suffice, whatever smaller
+    components and single-interval levels it also contains. *)
+Theorem C06_main_body_to_view_from_reference :
+  forall (start_of : nat -> Z) (hm : head_mapping) sids offs levels grid step ref
+         (T : Z -> Q) (cs : nat -> Q),
+  NoDup (map fst hm) ->
+  offsets_from_mapping hm = Ok (sids, offs, levels) ->
+  NoDup grid ->
+  (forall a b, In a sids -> In b sids -> start_of a = start_of b -> a = b) ->
+  (forall c, In c (entries_of hm) -> e_val c == T (e_head c) - cs (e_series c)) ->
+  exists main,
+    find_offsets (main_sub hm main) = Ok (sids, offs) /\
+    let O := written_offsets start_of sids offs in
+    let Cr := written_crossings start_of (drop_single (main_sub hm main)) in
+    In ref (view_levels O Cr grid) ->
+    forall h, In h (view_levels O Cr grid) ->
+      exists v, In (inject_Z h * step, v)
+                   (view_average (store_with_reference O Cr ref) Cr grid step) /\
+                v == T h - T ref.
+Proof. exact planted_main_body_view. Qed.
+Print Assumptions C06_main_body_to_view_from_reference.
+
 (** Non-vacuity: three pieces of T(h) = 10 - 2h with constants 0, 5, -3. *)
 Example C06_example :
   find_offsets [(1%Z, [(0%nat, 8); (1%nat, 3)]); (2%Z, [(0%nat, 6); (1%nat, 1); (2%nat, 9)]);
                 (3%Z, [(1%nat, -1); (2%nat, 7)])]
   = Ok ([0%nat; 1%nat; 2%nat], [3; 8; 0]).
+Proof. vm_compute. reflexivity. Qed.
+
+(** Non-vacuity of the main-body form: the same three pieces (T(h) = 10 - 2h,
+    constants 0, 5, -3; level 9 planted with constants 10 and 8 for pieces 3, 4)
+    plus a smaller component on level 9 and a level crossed by one piece alone;
+    both are left out and the planted constants come back up to k = 3. *)
+Example C06_example_main_body :
+  offsets_from_mapping
+    [(1%Z, [(0%nat, 8); (1%nat, 3)]); (2%Z, [(0%nat, 6); (1%nat, 1); (2%nat, 9)]);
+     (3%Z, [(1%nat, -1); (2%nat, 7)]); (9%Z, [(3%nat, -18); (4%nat, -16)]); (4%Z, [(2%nat, 5)])]
+  = Ok ([0%nat; 1%nat; 2%nat], [3; 8; 0], [1%Z; 2%Z; 3%Z]).
 Proof. vm_compute. reflexivity. Qed.
